@@ -6,6 +6,7 @@ mod c14;
 mod c15;
 mod c17;
 mod c18;
+mod c19;
 mod c20;
 mod container;
 mod convert;
@@ -46,6 +47,11 @@ fn main() {
 		("record", "C15") => c15::record(&args[3], seed, thorough),
 		("replay", "C17") => c17::replay(&args[3], &args[4], &args[5]),
 		("replay", "C18") => c18::replay(&args[3], &args[4]),
+		("decode", "C19") => c19::run(&args[3], &args[4], &args[5]),
+		("decode-child", "C19") => {
+			c19::child(&args[3], &args[4], args[5].parse().unwrap(), &args[6]);
+			serde_json::json!({})
+		}
 		("replay", "C20") => c20::replay(&args[3], &args[4]),
 		("record", "C20") => c20::record(&args[3], seed, thorough),
 		_ => {
